@@ -516,7 +516,7 @@ def gen_options_random(rng):
 
 def generate(rng, tier):
     cases = list(gen_options_grid())
-    n_meta, n_tree, n_opt = (1000, 600, 300) if tier == "quick" else (24000, 10000, 5000)
+    n_meta, n_tree, n_opt = (1000, 600, 300) if tier == "quick" else (16000, 7000, 3500)
     if tier == "thorough":
         cases.extend(gen_options_dup_grid())
     for _ in range(n_meta):
